@@ -67,9 +67,14 @@ theorem match_nets_returns_src : match_nets_returns = match_nets_returns_expecte
 def empty_profile_expected : String := "false"
 theorem empty_profile_src : empty_profile = empty_profile_expected := by decide
 
-/-- `Global.IsBlockedIP` is membership in the subnet set. -/
-def global_ip_expected : String := "g.blockedNets.Contains(ip)"
+/-- `Global.IsBlockedIP` is membership in the subnet set, of the address without its IPv6 zone
+(`Global.isBlockedIPZ`). -/
+def global_ip_expected : String := "g.blockedNets.Contains(ip.WithZone(\"\"))"
 theorem global_ip_src : global_ip = global_ip_expected := by decide
+
+/-- `DefaultProfile.IsBlocked` matches the address without its IPv6 zone (`ProfAcc.isBlockedZ`). -/
+def profile_ip_expected : String := "rAddr.Addr().WithZone(\"\")"
+theorem profile_ip_src : profile_ip = profile_ip_expected := by decide
 
 /-- Wrapper logic around `MatchRequest` (global). -/
 def global_host_if_expected : String := "matched && res.NetworkRule != nil"
